@@ -18,6 +18,8 @@ class Tables:
         self.F = F
         self.T = luatpl.LuaTemplates(F)
         self.S = {n: luatpl.summary(self.T, n) for n in self.T.arms}
+        # guarded arms (`IR::Float(t, f) if f.is_infinite() => ..`): (variant, guard node, refs, summary)
+        self.G = [(n, g["guard"], g["refs"], luatpl.summary(self.T, n, g)) for n, gs in sorted(self.T.guarded.items()) for g in gs]
         self.variants = [v["name"] for v in F.adt(IRP)["variants"]]
         self.ev_e, self.expr = irtpl.arm_templates(F, "expression", NR + "Expression")
         self.ev_s, self.stmt = irtpl.arm_templates(F, "statement", NR + "Statement")
